@@ -13,8 +13,9 @@ rsync -a --exclude .git /repo/ "$S/repo/"
 ( cd "$S/repo" && git init -q . 2>/dev/null && git apply --whitespace=nowarn "$PATCH" ) || { echo "ALL: $1 PATCH-DOES-NOT-APPLY"; exit 3; }
 ( cd "$S/repo" && go build ./... ) || { echo "ALL: $1 DOES-NOT-BUILD"; exit 3; }
 if [ "${MUT_TESTS:-0}" = 1 ]; then ( cd "$S/repo" && go test -vet=off -count=1 ./... 2>&1 | grep -v '^ok\|no test files' | sed 's/^/SUITE: /' ); fi
-[ -x /verif/bin/ddcheck ] || ( cd /verif/checker && go build -o /verif/bin/ddcheck ./cmd/ddcheck )
-out=$(DDCHECK_OUT="$S/out" /verif/bin/ddcheck -prop "$PROPS" -repo "$S/repo" -verif /verif 2>&1); c=$?
+BIN=${DDCHECK_BIN:-/verif/bin/ddcheck}
+[ -x "$BIN" ] || ( cd /verif/checker && go build -o /verif/bin/ddcheck ./cmd/ddcheck )
+out=$(DDCHECK_OUT="$S/out" "$BIN" -prop "$PROPS" -repo "$S/repo" -verif /verif 2>&1); c=$?
 alarms=$(echo "$out" | grep '^VIOLATION' | sed 's/.*property=\([A-Z0-9]*\).*/\1/' | sort | uniq -c | awk '{printf "%s(%s) ", $2, $1}')
 echo "ALL: $(basename $(dirname $PATCH))/$(basename $PATCH) exit=$c alarms=${alarms:-none}"
 echo "$out" | sed "s#$S/repo/##g" | grep -v '^VIOLATION\|^==\|KNOWN-FINDING\|^ *$' | head -${MUT_LINES:-10} | cut -c1-400
